@@ -31,7 +31,8 @@ def gen_design(r, features=("cname", "attr", "param", "names", "latch", "conn", 
         if "undeclared" in features and r.random() < 0.25:
             m["declared"] = False
         models.append(m)
-    weird = ["$abc$%d$n", "n%d.x", "net%d", "w%d", "$auto$blif.cc:5:p$%d.A", "sig%d", "st%d[1].sum", "$0\\leds%d[15:0].q", "g[%d].u"]
+    weird = ["$abc$%d$n", "n%d.x", "net%d", "w%d", "$auto$blif.cc:5:p$%d.A", "sig%d", "st%d[1].sum", "$0\\leds%d[15:0].q", "g[%d].u",
+             "eq%d==b", "mode=%d"]        # (an '=' in a net name: a formal=actual pair is split at the FIRST one)
     bus_bases = ["b", "b", "stage[1].sum", "$0\\leds[15:0]", "arr[2].d"]
     nets = []       # available driven net bits
     inputs = []
@@ -110,8 +111,12 @@ def gen_design(r, features=("cname", "attr", "param", "names", "latch", "conn", 
             nets.append(out)
         else:
             continue
-        if it["kind"] in ("subckt", "gate") or ("cname" in features and r.random() < 0.5):
-            it["cname"] = fresh("$inst$c")      # subckt/gate always carry a .cname: it is the instance's identity here
+        undeclared_ = it["kind"] in ("subckt", "gate") and not next(m_ for m_ in models if m_["name"] == it["model"])["declared"]
+        if (it["kind"] in ("subckt", "gate") and not (undeclared_ and r.random() < 0.5)) or \
+                (it["kind"] not in ("subckt", "gate") and "cname" in features and r.random() < 0.5):
+            # a .subckt / .gate carries a .cname (its identity here) - except some instances of never-declared black boxes: without
+            # port directions the reader cannot name them after the net they drive and leaves <model>_instance_<k> (see expected())
+            it["cname"] = fresh("$inst$c")
         if "attr" in features and r.random() < 0.3:
             it["attr"] = {"src": "file.v:%d" % uid[0]}
         if "param" in features and r.random() < 0.3:
@@ -221,9 +226,14 @@ def write(design, r, style=True):
 def expected(design):
     """instances keyed by item order: expected name, model, type and data."""
     insts = {}
+    nth = {}
     for it in design["items"]:
+        if it["kind"] in ("subckt", "gate"):
+            nth[it["model"]] = nth.get(it["model"], -1) + 1       # the reader numbers the instances of a model as they appear
         if it["cname"]:
             name = it["cname"]
+        elif it["kind"] in ("subckt", "gate"):
+            name = "%s_instance_%d" % (it["model"], nth[it["model"]])
         elif it["kind"] == "names":
             name = fmt_bit(it["pins"][-1][2])
         else:
